@@ -57,6 +57,12 @@ def shapes_for(rng, tier, count, max_rank=4, max_dim=3, min_rank=0, big_rank=6):
         out = base + big * 4
     return out
 
+def big_shapes(rng, k):
+    """shapes with 1024..4000 elements: size thresholds, long fibres, many rows"""
+    cands = [[32, 32], [1100], [3, 400], [400, 3], [2, 2, 300], [1025, 1], [1, 1030], [33, 32], [4, 260], [2, 600, 1], [16, 8, 9], [1024]]
+    rng.shuffle(cands)
+    return cands[:k]
+
 def gen_C06(rng, tier):
     progs = []
     n = 0
@@ -180,16 +186,19 @@ def gen_C03(rng, tier):
         p = Prog('c03_u%d' % i)
         shape = rand_shape(rng, 6 if i % 9 == 0 else 4, 2 if i % 9 == 0 else 3, 0)
         n = prod(shape)
-        cls = rng.choice(['rand', 'pos', 'zeros', 'neg', 'big'])
+        cls = rng.choice(['rand', 'pos', 'zeros', 'neg', 'big', 'wide', 'wide'])
         if cls == 'rand': vals = rand_vals(rng, n, -3, 3)
         elif cls == 'pos': vals = rand_vals(rng, n, 0.1, 4)
         elif cls == 'zeros': vals = [rng.choice([0.0, 1.0, -1.0]) for _ in range(n)]
         elif cls == 'neg': vals = rand_vals(rng, n, -4, -0.1)
+        elif cls == 'wide':
+            # every magnitude at which exp / sinh / cosh are still finite, both signs
+            vals = [rng.choice([-1, 1]) * rng.choice([1e-8, 0.01, 0.5, 2.0, 5.0, 12.0, 21.5, 22.5, 25.0, 40.0, 100.0, 300.0, 700.0]) for _ in range(n)]
         else: vals = [rng.choice([1e150, -1e150, 1e-150, 3.0]) for _ in range(n)]
         t = p.tensor(shape, vals)
         p.tag('unary', cls)
         for u in unary:
-            if u == 'log' and cls in ('neg', 'zeros', 'rand'):
+            if u == 'log' and cls in ('neg', 'zeros', 'rand', 'wide'):
                 continue
             if u in ('exp', 'sinh', 'cosh', 'tan', 'sin', 'cos') and cls == 'big':
                 continue
@@ -324,5 +333,18 @@ def gen_C05(rng, tier):
             for r in red:
                 o = p.bind('%salong %s %d' % (r, t, d)); p.add('obs %s' % o)
         p.tag('rank%d' % len(shape), kind)
+        progs.append(p)
+    # large tensors: long fibres, element counts past typical block / threshold sizes
+    for i, shape in enumerate(big_shapes(rng, 4 if tier == 'quick' else 12)):
+        p = Prog('c05_big%d' % i)
+        n = prod(shape)
+        vals = [((k * 37) % 101) / 8.0 - 6.0 for k in range(n)]
+        t = p.tensor(shape, vals)
+        for r in red:
+            p.add('%s %s' % (r, t))
+        for d in range(len(shape)):
+            for r in red:
+                o = p.bind('%salong %s %d' % (r, t, d)); p.add('obs %s' % o)
+        p.tag('large')
         progs.append(p)
     return progs
